@@ -1,6 +1,8 @@
 \* The two seeded behaviours of round 5 (named deviations MgfErrorSlicesIdentifier, RetrievalMethod = "xpath") are
 \* switched on in the run of the required design: TLC must REFUTE Total - cause by cause (run with -continue) -
 \* or the check breaks: the identifier-class and reference-graph dimensions are not vacuous.
+\* Round 8: DevSeeded5 also holds GcmAsCbc (aes256-gcm registered with a CBC value); TLC must refute GcmTamperRejected
+\* on the sample of family gcmid.
 CONSTANTS
   Family = "C11dev"
   Dev <- DevPinned
@@ -12,4 +14,5 @@ INVARIANTS
   NoIdentifierSlice
   NoPathPanic
   NoUnboundedRecursion
+  GcmTamperRejected
 CHECK_DEADLOCK FALSE
